@@ -31,6 +31,8 @@ pub enum COp {
     Shutdown,
     AwaitAll,
     Pause(u8),
+    /// move the harness clock forward (programs under controlled scheduling drive the clock themselves)
+    Advance { ms: u32 },
 }
 
 #[derive(Clone, Debug, PartialEq, Eq, Hash, Serialize, Deserialize)]
@@ -45,6 +47,16 @@ pub struct Injection {
     /// (site index, probability per 256, delay)
     pub sites: Vec<(u8, u8, Delay)>,
     pub seed: u64,
+}
+
+/// Controlled scheduling (PCT style) over the hook schedule points: only the highest-priority thread parked at a point
+/// runs; priorities are given to threads in order of their first appearance; at the listed step numbers the thread that
+/// is running drops to the lowest priority. A thread that does not reach its next point within a short time-out is
+/// taken to be blocked or idle and the next one is elected, so the execution is serialised at point granularity.
+#[derive(Clone, Debug, PartialEq, Eq, Hash, Serialize, Deserialize)]
+pub struct SchedPlan {
+    pub priorities: Vec<u8>,
+    pub change_points: Vec<u16>,
 }
 
 #[derive(Clone, Debug, PartialEq, Eq, Hash, Serialize, Deserialize)]
@@ -68,6 +80,8 @@ pub struct ConcCase {
     pub clock: Vec<ClockStep>,
     pub monitor: bool,
     pub consumer: ConsumerMode,
+    #[serde(default)]
+    pub sched: Option<SchedPlan>,
 }
 
 pub fn base_weight(k: u8) -> i64 { 8 + (k as i64 % 5) * 3 }
@@ -133,6 +147,9 @@ pub struct History {
     pub rotation_start_ns: u64,
     pub rotated: bool,
     pub lookups: u64,
+    pub sched_steps: u64,
+    pub sched_threads: u64,
+    pub sched_timeout_elections: u64,
 }
 
 #[derive(Clone, Debug, Serialize)]
@@ -184,7 +201,92 @@ fn make_handler(injection: &Injection, counter: Arc<AtomicU64>, thread_ids: Arc<
     })
 }
 
+struct SchedState {
+    parked: BTreeSet<usize>,
+    priorities: Vec<i64>,
+    current: Option<(usize, Instant)>,
+    steps: u64,
+    next_low: i64,
+    disabled: bool,
+    elections_by_timeout: u64,
+}
+
+pub struct Sched {
+    plan: SchedPlan,
+    state: Mutex<SchedState>,
+    condvar: std::sync::Condvar,
+}
+
+thread_local! {
+    static SCHED_INDEX: std::cell::Cell<usize> = std::cell::Cell::new(usize::MAX);
+}
+
+const SCHED_TIMEOUT: Duration = Duration::from_micros(400);
+
+impl Sched {
+    fn new(plan: &SchedPlan) -> Arc<Sched> {
+        Arc::new(Sched { plan: plan.clone(), state: Mutex::new(SchedState { parked: BTreeSet::new(), priorities: Vec::new(), current: None, steps: 0, next_low: -1, disabled: false, elections_by_timeout: 0 }), condvar: std::sync::Condvar::new() })
+    }
+
+    fn index(&self, state: &mut SchedState) -> usize {
+        let index = SCHED_INDEX.with(|index| index.get());
+        if index != usize::MAX && index < state.priorities.len() { return index; }
+        let index = state.priorities.len();
+        let priority = self.plan.priorities.get(index).copied().unwrap_or((index as u8).wrapping_mul(37)) as i64;
+        state.priorities.push(priority * 1000 + index as i64);
+        SCHED_INDEX.with(|slot| slot.set(index));
+        index
+    }
+
+    /// Called at every schedule point by whichever thread reaches it.
+    fn reach(&self, site: Site) {
+        let mut state = self.state.lock().unwrap();
+        if state.disabled { return; }
+        let me = self.index(&mut state);
+        state.steps += 1;
+        if self.plan.change_points.contains(&(state.steps as u16)) { state.priorities[me] = state.next_low; state.next_low -= 1; }
+        if matches!(state.current, Some((current, _)) if current == me) { state.current = None; }
+        state.parked.insert(me);
+        loop {
+            if state.disabled { state.parked.remove(&me); break; }
+            let free = match state.current { None => true, Some((_, since)) => since.elapsed() > SCHED_TIMEOUT };
+            if free {
+                let best = state.parked.iter().copied().max_by_key(|thread| state.priorities[*thread]).unwrap_or(me);
+                if best == me {
+                    if state.current.is_some() { state.elections_by_timeout += 1; }
+                    state.parked.remove(&me);
+                    state.current = Some((me, Instant::now()));
+                    // a background thread that was elected at the head of its loop goes to the back of the queue: the
+                    // periodic sweeper (and the worker, the consumer) cannot starve the clients, whatever their priority
+                    if matches!(site, Site::SweeperBeforeRetain | Site::ConsumerLoop | Site::WorkerAfterDequeue) { state.priorities[me] = state.next_low; state.next_low -= 1; }
+                    self.condvar.notify_all();
+                    break;
+                }
+                self.condvar.notify_all();
+            }
+            let (next, _) = self.condvar.wait_timeout(state, Duration::from_micros(60)).unwrap();
+            state = next;
+        }
+    }
+
+    /// The calling client thread finished an operation (it is between operations or waits for acknowledgements).
+    fn operation_done(&self) {
+        let mut state = self.state.lock().unwrap();
+        let me = SCHED_INDEX.with(|index| index.get());
+        if matches!(state.current, Some((current, _)) if current == me) { state.current = None; self.condvar.notify_all(); }
+    }
+
+    fn disable(&self) -> (u64, usize, u64) {
+        let mut state = self.state.lock().unwrap();
+        state.disabled = true;
+        self.condvar.notify_all();
+        (state.steps, state.priorities.len(), state.elections_by_timeout)
+    }
+}
+
 struct Shared {
+    sched: Option<Arc<Sched>>,
+    clock_log: Mutex<Vec<(u64, u64)>>,
     cache: CacheD<u64, u64>,
     inst: Arc<Instance>,
     clock: HClock,
@@ -342,10 +444,17 @@ fn worker_thread(shared: Arc<Shared>, thread: usize, ops: Vec<COp>, barrier: Arc
                     Outcome::Shutdown
                 }
                 COp::AwaitAll => Outcome::Nothing,
+                COp::Advance { ms } => {
+                    let now = shared.clock.get() + *ms as u64 * 1_000_000;
+                    shared.clock.set(now);
+                    shared.clock_log.lock().unwrap().push((inst.next_stamp(), now));
+                    Outcome::Nothing
+                }
                 COp::Pause(times) => { for _ in 0..*times { std::thread::yield_now(); } Outcome::Nothing }
             }
         }));
         state.store(0, Ordering::SeqCst);
+        if let Some(sched) = &shared.sched { sched.operation_done(); }
         let end = inst.next_stamp();
         let outcome = match outcome {
             Ok(outcome) => outcome,
@@ -397,11 +506,13 @@ pub fn run_conc_case(case: &ConcCase, stall_window: Duration) -> ConcRun {
     let cache = crate::seq::build_cache(&case.cfg, &clock, &inst);
     verif::install(None);
     let delays = Arc::new(AtomicU64::new(0));
-    if !case.injection.sites.is_empty() {
+    if !case.injection.sites.is_empty() && case.sched.is_none() {
         inst.set_handler(Some(make_handler(&case.injection, delays.clone(), Arc::new(AtomicU64::new(0)))));
     }
     if case.consumer != ConsumerMode::Free { inst.consumer_gate.close(); }
-    let shared = Arc::new(Shared { cache, inst: inst.clone(), clock: clock.clone(), cfg: case.cfg.clone(), recs: Mutex::new(Vec::new()), keep: Mutex::new(Vec::new()), progress: AtomicU64::new(0), states: (0..case.threads.len()).map(|_| std::sync::atomic::AtomicU8::new(0)).collect(), shutdown_called: AtomicBool::new(false), shutdown_started: AtomicBool::new(false), stop_aux: AtomicBool::new(false) });
+    let sched = case.sched.as_ref().map(Sched::new);
+    if let Some(sched) = &sched { let sched = sched.clone(); inst.set_handler(Some(Arc::new(move |site: Site| sched.reach(site)))); }
+    let shared = Arc::new(Shared { sched: sched.clone(), clock_log: Mutex::new(Vec::new()), cache, inst: inst.clone(), clock: clock.clone(), cfg: case.cfg.clone(), recs: Mutex::new(Vec::new()), keep: Mutex::new(Vec::new()), progress: AtomicU64::new(0), states: (0..case.threads.len()).map(|_| std::sync::atomic::AtomicU8::new(0)).collect(), shutdown_called: AtomicBool::new(false), shutdown_started: AtomicBool::new(false), stop_aux: AtomicBool::new(false) });
     let barrier = Arc::new(Barrier::new(case.threads.len() + 1));
     let tids = Arc::new(Mutex::new(Vec::new()));
     let (done_sender, done_receiver) = std::sync::mpsc::channel::<usize>();
@@ -436,11 +547,9 @@ pub fn run_conc_case(case: &ConcCase, stall_window: Duration) -> ConcRun {
         }))
     } else { None };
     // clock driver
-    let clock_log = Arc::new(Mutex::new(Vec::new()));
     let clock_handle = if !case.clock.is_empty() {
         let shared = shared.clone();
         let steps = case.clock.clone();
-        let log = clock_log.clone();
         Some(std::thread::spawn(move || {
             for step in steps {
                 if shared.stop_aux.load(Ordering::Acquire) { break; }
@@ -449,7 +558,7 @@ pub fn run_conc_case(case: &ConcCase, stall_window: Duration) -> ConcRun {
                 let before = shared.inst.next_stamp();
                 shared.clock.set(now);
                 let _ = before;
-                log.lock().unwrap().push((shared.inst.next_stamp(), now));
+                shared.clock_log.lock().unwrap().push((shared.inst.next_stamp(), now));
             }
         }))
     } else { None };
@@ -493,6 +602,12 @@ pub fn run_conc_case(case: &ConcCase, stall_window: Duration) -> ConcRun {
         }
     }
     shared.stop_aux.store(true, Ordering::Release);
+    if let Some(sched) = &sched {
+        let (steps, threads, timeouts) = sched.disable();
+        history.sched_steps = steps;
+        history.sched_threads = threads as u64;
+        history.sched_timeout_elections = timeouts;
+    }
     if history.blocked.is_some() {
         // threads are stuck: leak everything and report
         inst.set_handler(None);
@@ -510,7 +625,7 @@ pub fn run_conc_case(case: &ConcCase, stall_window: Duration) -> ConcRun {
     history.monitor_samples = samples;
     history.monitor_min = min;
     history.monitor_max = max;
-    history.clock_log = clock_log.lock().unwrap().clone();
+    history.clock_log = shared.clock_log.lock().unwrap().clone();
     history.shutdown_called = shared.shutdown_called.load(Ordering::SeqCst);
     let mut recs = shared.recs.lock().unwrap().clone();
     recs.sort_by_key(|rec| rec.start);
